@@ -79,8 +79,8 @@ def messages_listing(tier, oid='O3', prefix='O3'):
                 mode = 'ProcessedAtFirst' if ob.eng.prove(p, inner == 1)[0] else 'CreatedAtFirst'
             modes_seen.add(mode)
             for i, x in enumerate(res.items):
-                rank = z3.Sum([z3.If(before(mode, y, x), 1, 0) for y in ms]) if ms else z3.IntVal(0)
-                claims.append((rank == z3.BV2Int(start) + i, f'{prefix}/memory-page-content',
+                rank = sum([z3.If(before(mode, y, x), z3.BitVecVal(1, 64), z3.BitVecVal(0, 64)) for y in ms], z3.BitVecVal(0, 64))      # pure bit-vector arithmetic (n <= 3: no overflow)
+                claims.append((rank == start + i, f'{prefix}/memory-page-content',
                                f'position {i} of the page is not element min(o,n)+{i} of the {mode} order (wrong order, gap or repeat)'))
                 claims.append((z3.Or([z3.And(mfield(x, 'id').fields[0] == mfield(y, 'id').fields[0], mfield(x, 'created_at').fields[0] == mfield(y, 'created_at').fields[0]) for y in ms]) if ms else z3.BoolVal(False),
                                f'{prefix}/memory-foreign-element', 'page contains something that is not a stored message of the group'))
@@ -496,18 +496,18 @@ def pending_welcomes_listing(tier, oid='O10', prefix='O10'):
             if not ob.require(isinstance(res, SeqV), f'{prefix}/memory-pending-result-shape', 'result is not a list', p):
                 continue
             pflags = [w.fields[WELCOME_FIELDS.index('state')].discriminant() == pend for w in ws]
-            npend = z3.Sum([z3.If(c, 1, 0) for c in pflags]) if pflags else z3.IntVal(0)
-            o_, l_ = z3.BV2Int(off), z3.BV2Int(lim)
-            start = z3.If(o_ < npend, o_, npend)
-            end = z3.If(o_ + l_ < npend, o_ + l_, npend)
+            npend = sum([z3.If(c, z3.BitVecVal(1, 64), z3.BitVecVal(0, 64)) for c in pflags], z3.BitVecVal(0, 64))
+            start = z3.If(z3.ULT(off, npend), off, npend)
+            endsat = z3.If(z3.BVAddNoOverflow(off, lim, False), off + lim, z3.BitVecVal(-1, 64))
+            end = z3.If(z3.ULT(endsat, npend), endsat, npend)
             claims = [(valid, f'{prefix}/memory-pending-invalid-limit-accepted', f'memory pending_welcomes() accepts a limit outside 1..={MAXW}'),
-                      (z3.IntVal(len(res.items)) == end - start, f'{prefix}/memory-pending-page-size',
+                      (z3.BitVecVal(len(res.items), 64) == end - start, f'{prefix}/memory-pending-page-size',
                        f'page holds {len(res.items)} welcome(s) but positions [min(o,n), min(o+l,n)) of the pending ones hold a different number ({n} stored)')]
             for i, x in enumerate(res.items):
                 xid = x.fields[0].fields[0]
                 same = [xid == w.fields[0].fields[0] for w in ws]
                 claims.append((z3.Or([z3.And(s_, c) for s_, c in zip(same, pflags)]) if ws else z3.BoolVal(False), f'{prefix}/memory-pending-foreign-element', 'the page contains a welcome that is not pending (or not stored)'))
-                rank = z3.Sum([z3.If(z3.And(c, z3.UGT(w.fields[0].fields[0], xid)), 1, 0) for w, c in zip(ws, pflags)])
+                rank = sum([z3.If(z3.And(c, z3.UGT(w.fields[0].fields[0], xid)), z3.BitVecVal(1, 64), z3.BitVecVal(0, 64)) for w, c in zip(ws, pflags)], z3.BitVecVal(0, 64))
                 claims.append((rank == start + i, f'{prefix}/memory-pending-page-content', f'position {i} of the page is not element min(o,n)+{i} of the pending welcomes in descending id order'))
             if n and any(not ob.eng.prove(p, c)[0] for c in pflags):
                 n_filtered += 1
